@@ -261,6 +261,9 @@ func (i *interpreter) findSubmatchSym(fr *frame, pattern string, s symstr) value
 		return n
 	}
 	pieces := re.Sub[1 : len(re.Sub)-1]
+	if r, ok := i.matchPieces(fr, pattern, pieces, ncap, s); ok {
+		return r
+	}
 	for k, p := range pieces {
 		v := fresh("p", k)
 		parts = append(parts, v)
